@@ -19,7 +19,7 @@ RULE = (
     "Hypothesis draws a run over all families/boxes/starts x maxiter 0..40 x maxfun 1..200 x maxls x ftol x gtol (float or callable) x ftarget (None, float or callable, placed above/at/below reachable values) "
     "x stopping callback x gradient scaler x {callable, None, 2-point, 3-point}, followed by a history of 0..3 restarts from the previous result with maxiter below/equal/above the checkpoint's nit, "
     "maxfun below/above its nfev and a new maxcor; dedicated generators: (i) evaluation budgets that bind inside a line search (fresh runs with maxfun 3..16, restarts with maxfun = n0+1..4, hard line-search families), (ii) a target placed exactly on, one ulp below or one ulp above a value the run attains (f(x0) or the value at iterate k of a reference run). non-trivial = at least two stop criteria were within reach in the same run (e.g. small maxfun and a reachable target, a stopping callback and a small maxiter) "
-    "or the history contains a restart; distinct = distinct history spec"
+    "or the history contains a restart; distinct = distinct history spec; a fifth of the problems are also translated far from the origin (x -> x+T, |T| = 1e2..1e6: bounds and iterates of large magnitude compared with the box)"
 )
 ASSUMPTIONS = [
     "the documented termination reasons are the seven strings of the statement; START / RESTART_FROM_LNSRCH are internal placeholders",
@@ -133,7 +133,7 @@ def check(spec, stats=None):
 @st.composite
 def strategy(draw):
     r = draw(run_spec(families=ALL_FAMILIES, n_max=8, jac_modes=("callable", "callable", "callable", None, "2-point", "3-point"),
-                      maxiter=(0, 40), maxfun=(1, 200), units=True, ftols=(0.0, 1e-12, 1e-5, 1e-2, 0.3), gtols=(1e-8, 1e-5, 1e-3, 1e-2, 1e-1),
+                      maxiter=(0, 40), maxfun=(1, 200), units=True, shift=True, ftols=(0.0, 1e-12, 1e-5, 1e-2, 0.3), gtols=(1e-8, 1e-5, 1e-3, 1e-2, 1e-1),
                       with_scaler=True, with_ftarget=True, with_callback_stop=True, gtol_callable=True, extras=True))
     nr = draw(st.sampled_from([0, 1, 2, 3]))
     restarts = []
